@@ -1,8 +1,11 @@
 #!/bin/bash
 # try_seed.sh <seeded-dir-name> <PROP> [tier] : apply a seeded change to /repo, run the check, undo.
+# The evidence file of the property is saved and restored (evidence must come from the unchanged tree).
 s=/verif/seeded/$1; p=$2; t=${3:-quick}
 git -C /repo apply $s/patch.diff || exit 2
+cp /verif/evidence/$p.json /tmp/try_$$.ev 2>/dev/null
 ( cd /verif && ./check $p $t ) > /tmp/try_$$.out 2> /tmp/try_$$.err; rc=$?
 git -C /repo apply -R $s/patch.diff
+[ -f /tmp/try_$$.ev ] && cp /tmp/try_$$.ev /verif/evidence/$p.json
 echo "seed=$1 prop=$p exit=$rc"; grep -E "^(VIOLATION|KNOWN)" /tmp/try_$$.out; grep -E "failed:|govc:" /tmp/try_$$.err | head -${4:-8}
 rm -f /tmp/try_$$.*
